@@ -196,6 +196,18 @@ def envOk (fs : List (String × String)) (bn ts : Nat) (hash : String) (txid : O
   field fs "coinbase" == "0000000000000000000000000000000000000000" &&
   (match txid with | some t => field fs "txid" == t | none => true)
 
+/-- Environment of a simulation (`eth_call`, `eth_estimateGas`, `brc20_balance`) made without an explicit block:
+the height that the next transaction will be built at, the caller's account nonce, the same zero fees. -/
+def simEnvOk (n : Node) (fs : List (String × String)) : Bool :=
+  field fs "number" == toString n.nextHeight && field fs "nonce" == toString (n.accountNonce (field fs "caller")) &&
+  field fs "basefee" == "0" && field fs "gasprice" == "0" && field fs "value" == "0" &&
+  field fs "coinbase" == "0000000000000000000000000000000000000000"
+
+def simRuns (evs : List Ev) : List (List (String × String)) :=
+  evs.filterMap (fun e => match e with
+    | .x "sim" fs _ _ _ _ => some fs
+    | _ => none)
+
 def txRuns (evs : List Ev) : List (List (String × String) × Bool × Bool × Nat × Nat) :=
   evs.filterMap (fun e => match e with
     | .x "tx" fs okRun succ gas logs => some (fs, okRun, succ, gas, logs)
